@@ -78,6 +78,7 @@ def run(chk):
         return SScal(e)
     absop.GHOSTS["IterativeOperatorWInfo"] = ghost
     pm.get_precision = get_precision
+    alg.OPT_IN.add("pinv")
     contract = dataclasses.replace(CONTRACTS["pinv"], ensures=pinv_ensures)
     contracts = dict(CONTRACTS)
     contracts["pinv"] = contract
@@ -89,6 +90,7 @@ def run(chk):
     finally:
         absop.GHOSTS["IterativeOperatorWInfo"] = old_ghost
         pm.get_precision = old_gp
+        alg.OPT_IN.discard("pinv")
     st = alg.lemma_stats()
     chk.extra["lemmas"] = dict(total=st["total"], assumed=[f"{n}: {why}" for n, why in st["assumed"] if "pinv" in n or "psolve" in n])
     for n, why in st["assumed"]:
